@@ -19,7 +19,18 @@ def get_trans(env, unsafe=False):
     def build():
         import os, pickle, facts, sys
         d = os.path.join(facts.facts_dir(), "derived")
-        fn = os.path.join(d, "trans-%s-D%d.pkl" % ("unsafe" if unsafe else "safe", env.depth_bound()))
+        import hashlib, glob
+        h = hashlib.sha256()
+        for src in sorted(glob.glob(os.path.join(os.path.dirname(os.path.abspath(__file__)), "*.py"))) + \
+                sorted(glob.glob(os.path.join(os.path.dirname(os.path.dirname(os.path.abspath(__file__))), "reference", "*.json"))):
+            h.update(open(src, "rb").read())
+        fn = os.path.join(d, "trans-%s-D%d-%s.pkl" % ("unsafe" if unsafe else "safe", env.depth_bound(), h.hexdigest()[:12]))
+        for old in glob.glob(os.path.join(d, "trans-*.pkl")):
+            if not old.endswith(h.hexdigest()[:12] + ".pkl"):
+                try:
+                    os.unlink(old)
+                except OSError:
+                    pass
         if os.path.exists(fn) and not os.environ.get("PFZ_NO_CACHE"):
             try:
                 with open(fn, "rb") as fh:
